@@ -22,7 +22,9 @@ import (
 	"time"
 
 	"github.com/kubeshark/base/pkg/api"
+	"github.com/google/martian/har"
 	"github.com/kubeshark/base/pkg/extensions/amqp"
+	httpext "github.com/kubeshark/base/pkg/extensions/http"
 	"github.com/kubeshark/base/pkg/extensions/kafka"
 	"github.com/kubeshark/base/pkg/extensions/redis"
 
@@ -85,6 +87,8 @@ func (s *shp) coq() string {
 		return "ShStrTag " + kty.CoqString(s.Str)
 	case "arr":
 		return "ShArr (" + s.E.coq() + ")"
+	case "arr1":
+		return "ShArr1 (" + s.E.coq() + ")"
 	case "opt":
 		return "ShOpt (" + s.E.coq() + ")"
 	case "obj":
@@ -108,7 +112,7 @@ func (s *shp) json() interface{} {
 		m["z"] = s.Z
 	case "strtag":
 		m["s"] = s.Str
-	case "arr", "opt":
+	case "arr", "opt", "arr1":
 		m["e"] = s.E.json()
 	case "obj":
 		var fs []interface{}
@@ -178,6 +182,17 @@ func conformsGo(s *shp, v interface{}) bool {
 			}
 		}
 		return true
+	case "arr1":
+		l, ok := v.([]interface{})
+		if !ok || len(l) == 0 {
+			return false
+		}
+		for _, x := range l {
+			if !conformsGo(s.E, x) {
+				return false
+			}
+		}
+		return true
 	case "opt":
 		return v == nil || conformsGo(s.E, v)
 	case "obj":
@@ -206,7 +221,11 @@ var marshalerType = reflect.TypeOf((*json.Marshaler)(nil)).Elem()
 var textMarshalerType = reflect.TypeOf((*encoding.TextMarshaler)(nil)).Elem()
 var timeType = reflect.TypeOf(time.Time{})
 
-type shaper struct{ notes map[string]bool }
+type shaper struct {
+	notes map[string]bool
+	// types with a MarshalJSON of their own whose output is described by rule (read from their source)
+	rules map[reflect.Type]func(sh *shaper) *shp
+}
 
 func (sh *shaper) note(format string, a ...interface{}) { sh.notes[fmt.Sprintf(format, a...)] = true }
 
@@ -218,6 +237,14 @@ func implements(t reflect.Type, it reflect.Type) bool {
 func (sh *shaper) shapeT(t reflect.Type, seen map[reflect.Type]bool) *shp {
 	if t == timeType {
 		return shStr // Time.MarshalJSON: an RFC 3339 string
+	}
+	if r, ok := sh.rules[t]; ok {
+		return r(sh)
+	}
+	if t.Kind() == reflect.Ptr {
+		if r, ok := sh.rules[t.Elem()]; ok {
+			return shOpt(r(sh))
+		}
 	}
 	if t.Kind() != reflect.Interface && implements(t, marshalerType) {
 		sh.note("%s has its own MarshalJSON: taken as any value", t)
@@ -796,6 +823,92 @@ func runShapes() (*shapesOut, error) {
 			}
 		}
 	}
+	// ---- http: HTTPPayload.MarshalJSON converts the *http.Request / *http.Response with
+	// har.NewRequest / har.NewResponse and marshals HTTPWrapper{Details: *har.Request | *har.Response}
+	{
+		sh.rules = map[reflect.Type]func(sh *shaper) *shp{
+			// har.PostData.MarshalJSON: its own fields when Text is valid UTF-8, else the same keys with
+			// text in base64 and "encoding": "base64"
+			reflect.TypeOf(har.PostData{}): func(sh *shaper) *shp {
+				t := reflect.TypeOf(har.PostData{})
+				s := sh.structShape(t, nil, map[reflect.Type]bool{t: true})
+				s.set("encoding", shOpt(&shp{K: "strtag", Str: "base64"}))
+				return s
+			},
+		}
+		seen := map[reflect.Type]bool{}
+		rq := sh.shapeT(reflect.TypeOf(har.Request{}), seen)
+		rs := sh.shapeT(reflect.TypeOf(har.Response{}), seen)
+		anyMap := func() *shp { return &shp{K: "obj", Rest: shAny} }
+		// Analyze (encoded by rule from pkg/extensions/http/main.go): headers and cookies of both sides
+		// and the request's queryString are rebuilt with make() as maps name -> value (a string, or a
+		// list / joined string for repeated names); targetUri, path and pathSegments are added
+		for _, k := range []string{"headers", "cookies", "queryString"} {
+			rq.set(k, anyMap())
+		}
+		for _, k := range []string{"headers", "cookies"} {
+			rs.set(k, anyMap())
+		}
+		rq.set("targetUri", shStr)
+		rq.set("path", shStr)
+		rq.set("pathSegments", &shp{K: "arr", E: shStr})
+		// har.NewResponse always sets Content, with Encoding "base64"
+		if c := rs.field("content"); c != nil && c.K == "opt" && c.E.K == "obj" {
+			c.E.set("encoding", &shp{K: "strtag", Str: "base64"})
+			rs.set("content", c.E)
+		} else {
+			out.problems = append(out.problems, "http: har.Response has no optional object \"content\"")
+		}
+		out.alts["http"] = append(out.alts["http"], altOut{name: "http", req: rq, resp: rs})
+		// probes through the real Dissect and Analyze: the observed maps must conform
+		d := httpext.NewDissector()
+		probes := [][2]string{
+			{"GET /a/b?x=1&x=2&y=3 HTTP/1.1\r\nHost: h\r\nCookie: c=d\r\nAccept: a\r\nAccept: b\r\n\r\n", "HTTP/1.1 200 OK\r\nContent-Type: text/plain\r\nSet-Cookie: k=v\r\nContent-Length: 2\r\n\r\nok"},
+			{"POST /f HTTP/1.1\r\nHost: h\r\nContent-Type: application/x-www-form-urlencoded\r\nContent-Length: 7\r\n\r\na=1&b=2", "HTTP/1.1 204 No Content\r\n\r\n"},
+			{"POST /j HTTP/1.1\r\nHost: h\r\nContent-Type: application/json\r\nContent-Length: 2\r\n\r\n{}", "HTTP/1.1 302 Found\r\nLocation: /x\r\nContent-Length: 0\r\n\r\n"},
+			{"POST /b HTTP/1.1\r\nHost: h\r\nContent-Type: application/octet-stream\r\nContent-Length: 2\r\n\r\n\xff\xfe", "HTTP/1.1 200 OK\r\nContent-Length: 1\r\n\r\n\xff"},
+		}
+		for i, pr := range probes {
+			items, p := dissectPair(d, []byte(pr[0]), []byte(pr[1]), "80")
+			if p != "" || len(items) != 1 {
+				out.problems = append(out.problems, fmt.Sprintf("http: probe %d gave %d items (panic %q)", i, len(items), p))
+				continue
+			}
+			a, b, err := stageInputs(d, items[0])
+			if err != nil {
+				out.problems = append(out.problems, fmt.Sprintf("http: probe %d: %v", i, err))
+				continue
+			}
+			if !conformsGo(rq, a) || !conformsGo(rs, b) {
+				x, _ := json.Marshal(a)
+				y, _ := json.Marshal(b)
+				out.problems = append(out.problems, fmt.Sprintf("http: the stage inputs of probe %d do not conform to the derived shapes: %s / %s", i, x, y))
+			}
+		}
+	}
+
+	// ---- dns: the items are built outside this repository (the dissector has no stream side): the
+	// shape is written down by rule - what Summarize / Represent of pkg/extensions/dns require of
+	// an entry and the worker provides (same assumptions as the hand model Shape/Dns.v)
+	{
+		str := func(ks ...string) []shField {
+			var fs []shField
+			for _, k := range ks {
+				fs = append(fs, shField{k, shStr})
+			}
+			return fs
+		}
+		question := &shp{K: "obj", Fs: str("name", "type", "class"), Rest: shAny}
+		rec := &shp{K: "obj", Fs: str("name", "type", "class"), Rest: shAny}
+		rec.Fs = append(rec.Fs, shField{"ttl", shNum})
+		rec.Fs = append(rec.Fs, str("ip", "ns", "cname", "ptr", "txts", "soa", "srv", "mx", "opt", "uri")...)
+		rq := &shp{K: "obj", Fs: []shField{{"opCode", shStr}, {"questions", &shp{K: "arr1", E: question}}}, Rest: shAny}
+		rs := &shp{K: "obj", Fs: []shField{{"code", shStr}}, Rest: shAny}
+		for _, k := range []string{"answers", "authorities", "additionals"} {
+			rs.Fs = append(rs.Fs, shField{k, shOpt(&shp{K: "arr", E: rec})})
+		}
+		out.alts["dns"] = append(out.alts["dns"], altOut{name: "dns", req: rq, resp: rs})
+	}
 	for n := range sh.notes {
 		out.notes = append(out.notes, n)
 	}
@@ -825,7 +938,19 @@ const shapesHeader = `(* generated by vh-translate (harness/cmd/vh-translate/sta
      request are fixed by the alternative, the version is any number (the layout selection is
      assumed monotone beyond 16: its thresholds are <= 11);
    * a pointer or interface that is set in the wrappers around the details (Payload, Data,
-     Details, Request.Payload) is taken as always set and of that dynamic type.
+     Details, Request.Payload) is taken as always set and of that dynamic type;
+   * http: HTTPPayload.MarshalJSON serialises HTTPWrapper{Details: *har.Request | *har.Response} of
+     github.com/google/martian/har: the shapes are those types by reflection, with (by rule, read from
+     the sources) har.PostData's own MarshalJSON (same keys, plus "encoding": "base64" for binary
+     text), har.NewResponse always setting Content with Encoding "base64", and Analyze's rewriting:
+     headers / cookies (both sides) and queryString become maps made with make() (any values),
+     targetUri / path (strings) and pathSegments (strings) are added.  One alternative covers
+     HTTP/1, HTTP/2 and gRPC (the same har types); four probe conversations through the real Dissect
+     and Analyze are checked against it;
+   * dns: the entries are built outside this repository; the shape (at least one question with
+     string name / type / class; records with those, a numeric ttl and the ten string fields;
+     answers / authorities / additionals absent, null or arrays; other keys unconstrained) is
+     written down by rule - the assumptions of the hand model Shape/Dns.v.
    shape_problems lists what went wrong while deriving (must be empty). *)
 `
 
